@@ -54,7 +54,7 @@ Print Assumptions C14_ranged_text_groups.
 (* the compressed text reads back: pdsh's own pass over a target list (hostlist_create, then the second pass of wcoll_expand -
    the parser model of C01) applied to [ranged_text l] yields exactly the hosts of l, in order, repeats included.  [printable]:
    numbers below the parser's limit, prefixes over the name alphabet, no empty plain name, at most MAX_RANGE hosts a range,
-   at most MAX_RANGES ranges, names short enough for the parser's fixed buffers.  Obtained from C01_expansion by exhibiting
+   at most MAX_RANGES ranges in any one bracket group, names short enough for the parser's fixed buffers.  Obtained from C01_expansion by exhibiting
    the syntax tree whose text is [ranged_text l] and whose meaning is [expand l]. *)
 Theorem C14_ranged_roundtrip : forall l, printable l -> targets (ranged_text l) = Ok (expand l).
 Proof. exact ranged_roundtrip. Qed.
@@ -85,7 +85,7 @@ Proof.
       assert (E : expand l = [[97;56]; [97;57]; [97;49;48]; [97;49;49]; [97;49;51]; [98]; [99;48;48;53]]) by (vm_compute; reflexivity);
       rewrite E end.
     repeat (apply Forall_cons; [unfold short, SUFFIX_HOST_SIZE, CUR_TOK_SIZE; cbn [length]; lia|]). apply Forall_nil.
-  - cbn [length]. unfold MAX_RANGES. lia.
+  - apply groups_small_of_length. cbn [length]. unfold MAX_RANGES. lia.
 Qed.
 
 Example C14_ranged_fit_nonvacuous :
